@@ -38,6 +38,10 @@ func (c *IContext) Cached(key string) (v *hack.Iface, ok bool) {
 // Cache 缓存数据
 func (c *IContext) Cache(key string, value *hack.Iface) {
 	c.p.ifaceCache[key] = value
+	// a freshly built interface value is being installed through this context: it is in
+	// use again (otherwise every later mock on it would rebuild the value and drop the
+	// methods mocked since the cancel)
+	c.p.canceled = false
 }
 
 // NewContext 构造上下文
